@@ -69,6 +69,7 @@ class Outcome:
         self.points = {}         # "<pid>@<k>" -> table
         self.sources = {}        # id(TableImpl) -> source name
         self.decisions = {}      # "<pid>@<k>" -> (verb node as first tested, reason or None)
+        self.failed = {}         # side pipe id -> (exc, msg, at) in tolerant mode
 
 
 class Instantiator:
@@ -78,6 +79,9 @@ class Instantiator:
         self.engine_cache = engine_cache if engine_cache is not None else {}
         self.out = Outcome()
         self._ops = None
+        self.shared = {}          # key -> expression object reused wherever ["shared", key, e] occurs (C10)
+        self.share = True
+        self.on_point = None      # callback(point key, table) after every verb call (C10 sessions)
 
     # ---- sources -----------------------------------------------------------------------------
     def source(self, name):
@@ -118,6 +122,12 @@ class Instantiator:
         from pydiverse.transform._internal.tree.col_expr import ColFn
 
         k = e[0]
+        if k == "shared":
+            if not self.share:
+                return self.expr(e[2])
+            if e[1] not in self.shared:
+                self.shared[e[1]] = self.expr(e[2])
+            return self.shared[e[1]]
         if k == "col":
             return self.out.points[e[1]][e[2]]
         if k == "c":
@@ -226,8 +236,10 @@ class Instantiator:
         raise ValueError(f"bad step {st!r}")
 
     def pipe(self, p):
-        tbl = self.source(p["src"])
+        tbl = self.out.points[p["from"]] if "from" in p else self.source(p["src"])
         self.out.points[f"{p['id']}@0"] = tbl
+        if self.on_point is not None and "from" not in p:
+            self.on_point(f"{p['id']}@0", tbl)
         for i, st in enumerate(p["steps"], 1):
             try:
                 n0 = len(REC)
@@ -250,17 +262,35 @@ class Instantiator:
                 self.out.exc_at = (p["id"], i)
                 raise _Abort() from ex
             self.out.points[f"{p['id']}@{i}"] = tbl
+            if self.on_point is not None:
+                self.on_point(f"{p['id']}@{i}", tbl)
         return tbl
 
     def run(self) -> Outcome:
+        tolerant = getattr(self, "tolerant", False)
+
+        def side(xp):
+            if not tolerant:
+                self.pipe(xp)
+                return
+            try:
+                self.pipe(xp)
+            except _Abort:
+                self.out.failed[xp["id"]] = (self.out.exc, self.out.exc_msg, self.out.exc_at)
+                self.out.exc = self.out.exc_msg = self.out.exc_at = None
+            except KeyError as ex:          # branches from a table that was never built
+                self.out.failed[xp["id"]] = ("<not built>", str(ex), None)
         with warnings.catch_warnings():
             warnings.simplefilter("ignore")
             try:
                 for xp in self.case.get("extra_pipes", []):     # unrelated tables (stale-reference probes)
-                    self.pipe(xp)
+                    side(xp)
                 self.out.table = self.pipe(self.case["pipe"])
             except _Abort:
                 pass
+            if tolerant or self.out.exc is None:
+                for xp in self.case.get("late_pipes", []):      # branches applied after the main pipe (C10)
+                    side(xp)
         return self.out
 
 
